@@ -579,6 +579,13 @@ func ruleC16_4(c *Ctx) {
 				}
 			})
 		}
+		if len(pops) == 1 {
+			// one call consumes one fragment: a fragment that is already Done (timed out, failed by a sibling) was still
+			// written to the node, and its late reply must be consumed by it
+			inLoop := innermostLoop(loopsOf(deqIn), pops[0].Block()) != nil
+			c.check(!inLoop, "DequeueInFrag: one fragment per call", c.at(pops[0]), "the pop is not in a loop",
+				"DequeueInFrag pops in a loop (e.g. skipping fragments that are already Done): a timed-out request was still sent, the node still answers it, and that late reply is now taken for the reply of the next live request - every later reply on the connection is shifted by one")
+		}
 		c.check(okP, "DequeueInFrag: pop, delete the deadline and return the same fragment", p.pos(deqIn.Pos()), "paired in one block", "the fragment popped from the in-flight queue, the one whose deadline is deleted and the one returned are not the same on every path")
 	}
 	// enqueueInFrag: both the queue and the deadline
